@@ -5,38 +5,14 @@
      cmpsd <int> <hex16>               compare_int64_double       -> i:<r> | ub
      cmpud <nat> <hex16>               compare_uint64_double      -> i:<r> | ub
      link <0|1>                        sets `Cfg.s64BelowU64` (the harness answers `link?` with the order of the two type descriptors)
-   IEEE arithmetic on two plain numbers is delegated to Lean's `Float` (hardware), `fmod` is computed exactly. -/
+   IEEE arithmetic on two plain numbers is the model's own (`Ieee.ieee`): exact rational result, rounded once. -/
 import Driver.Util
-import JanetModel.Int64.Model
+import JanetModel.Int64.Ieee
 open Driver JanetModel.Int64
 
-def fl (b : Nat) : Float := Float.ofBits b.toUInt64
-def bitsOf (f : Float) : Nat := f.toBits.toNat
-def nanBits : Nat := 0x7ff8000000000000
-
-/-- C `fmod`, exact -/
-def fmodBits (a b : Nat) : Nat :=
-  match decode a, decode b with
-  | .nan, _ => nanBits
-  | _, .nan => nanBits
-  | .inf _, _ => nanBits
-  | .fin .., .inf _ => a
-  | .fin nx mx ex, .fin _ my ey =>
-    if my = 0 then nanBits
-    else if mx = 0 then a
-    else
-      let e := min ex ey
-      let X := mx * 2 ^ (ex - e).toNat
-      let Y := my * 2 ^ (ey - e).toNat
-      encodeDyadic nx (X % Y) e
-
-def numOps : NumOps where
-  add := fun a b => bitsOf (fl a + fl b)
-  sub := fun a b => bitsOf (fl a - fl b)
-  mul := fun a b => bitsOf (fl a * fl b)
-  div := fun a b => bitsOf (fl a / fl b)
-  floor := fun a => bitsOf (Float.floor (fl a))
-  fmod := fmodBits
+/-- IEEE-754 binary64 arithmetic: the executable instance of `Int64/Ieee.lean` (round-to-nearest-even of the exact rational
+    result on decoded doubles; no `Float`) -/
+def numOps : NumOps := Ieee.ieee
 
 def hex16 (n : Nat) : String :=
   String.ofList ((List.range 16).reverse.map (fun i => hexDigit (n / 16 ^ i % 16)))
